@@ -1,7 +1,39 @@
 //! Scenario crate `scn-glv` (chain-level simulation on the chainsim runtime).
+//!
+//! * `glvx` — GLV client (PDAs, instruction builders for every GLV instruction, event parsers, readers);
+//!   reusable by other scenario crates.
+//! * `scn`  — scenario `glv_history` and its oracles (C45; GLV lifecycle oracles reported under C23).
 
-pub const PROPERTIES: &[&str] = &[];
+pub mod glvx;
+pub mod scn;
 
-pub fn registry(_property: &str) -> Option<simcore::CheckSpec> {
-    None
+use simcore::{CheckSpec, Part};
+
+pub const PROPERTIES: &[&str] = &["C45"];
+
+fn assumptions() -> Vec<String> {
+    vec![
+        "Reference GM prices come from the store's own `get_market_token_value` instruction (pool value and supply from its event, multiplication/division redone with big integers) evaluated on a copy of the world at the same clock and feeds: for deposits on the post-transaction state (the state the program priced on, since the market deposit part is committed unchanged), for withdrawals on the pre-transaction state. A defect shared by `pool_value` itself is out of scope here (C06/C07 cover it).".into(),
+        "GLV deposits and withdrawals use no swap paths; GLV shifts are checked for conservation only (the statement does not constrain shifts).".into(),
+        "Compute budget, transaction size and BPF stack/heap limits are not modelled by the runtime.".into(),
+    ]
+}
+
+pub fn registry(property: &str) -> Option<CheckSpec> {
+    match property {
+        "C45" => Some(CheckSpec {
+            property: "C45",
+            level: "exploration",
+            parts: vec![Part::new(scn::GlvHistory { focus: "C45" }, 3000, 60_000)],
+            assumptions: assumptions(),
+        }),
+        // GLV part of the action lifecycle property; not listed in PROPERTIES (owned by another crate).
+        "C23" => Some(CheckSpec {
+            property: "C23",
+            level: "exploration",
+            parts: vec![Part::new(scn::GlvHistory { focus: "C23" }, 3000, 60_000)],
+            assumptions: assumptions(),
+        }),
+        _ => None,
+    }
 }
